@@ -42,3 +42,7 @@ claim("C17", "metamorphic testing: permutations and partitions of top-level piec
       "Each generated schema is loaded in a single-source baseline order, with extensions first (one and two sources), reversed, and under 4 (quick) / 20 (thorough) random permutations partitioned into 1-5 named sources; verdict and canonical schema must be identical, and a load error must name a file containing a piece of a definition the reference validator reports as involved.",
       "Fields are compared as sets per type as the property states; 'involved' is the union over all violations the reference reports, so the file check is sound but coarse.",
       "6/C17")
+claim("C08", "differential testing against a reference validator over typed generators: valid-by-construction documents, 1-3 injected faults from a 46-operator catalogue, type-blind documents",
+      "For generated (schema, document) pairs the emptiness of validator.Validate's error list must equal the verdict of an independent implementation of the validation section of the specification (plus the introspection depth rule). Documents valid by construction must be accepted, documents with an injected fault rejected; the generator and every fault operator are cross-checked against the reference on every case.",
+      "Trusted: harness/ref/validate.go, calibrated against the 398 applicable graphql-js cases imported by the repository (TestSelfValidator). Two deviations that cannot be repaired without API changes are recorded as known findings with exact relaxations.",
+      "6/C08")
